@@ -510,7 +510,7 @@ impl<'input> Tokenizer<'input> {
     }
 
     fn operator(&mut self, start: Location) -> SpannedToken<'input> {
-        let (end, op) = self.take_while(start, is_operator_byte);
+        let (mut end, op) = self.take_while(start, is_operator_byte);
 
         let token = match op {
             "@" => Token::At,
@@ -523,7 +523,9 @@ impl<'input> Tokenizer<'input> {
             "#" => {
                 // Is this too permissive?
                 self.take_while(start, is_ident_start);
-                let (_, op) = self.take_while(start, is_operator_byte);
+                let (op_end, op) = self.take_while(start, is_operator_byte);
+                // The token is the whole `#Int+`, not only the `#`
+                end = op_end;
                 Token::Operator(op)
             }
             op => Token::Operator(op),
